@@ -4,15 +4,49 @@ autocorrelation of a per-particle scalar, vector or tensor series, real or compl
 Oracle: pbt/ref/tcorr.py (einsum products written from the definition) and, in facet analytic_phase, the closed
 form cos(phi (ts_k - ts_0)) for series a_i exp(i phi ts_k).
 
+Facets
+  even_spacing / uneven_spacing  random series, T 1..8, against the reference (all origins / first frame only)
+  analytic_phase                 closed form, fixes the conjugation convention independently of the reference
+  repeat_calls                   HISTORIES: 3..7 calls in one case that share state a memo could key on: the same
+                                 condition array object refilled in place (buf[...] = B), the same Snapshots object whose
+                                 frames are replaced in place (even schedule -> uneven -> back), alternation between
+                                 inputs of one shape/dtype, the same arguments twice (bit-identical result), and every
+                                 memory layout numpy hands to a caller (strided / reversed / Fortran-ordered /
+                                 axis-swapped views, read-only arrays, float32 / complex64).  Every call must match the
+                                 reference for the contents AT CALL TIME and leave the caller's array bit-identical.
+  edge_sizes                     the smallest sizes for which the statement still defines a value (T = 1, 2, 3; N = 1;
+                                 1-component vectors; 1x1 tensors), first timestep 0 / 2^31-1 / 1e9 / 5e9 / 1e12, dt from
+                                 1e-15 to 1e6, series constant in time (C = 1 at every lag under both origin rules),
+                                 purely imaginary series, real values stored as complex, one non-zero entry, values
+                                 scaled by 1e+-30
+  long_schedules                 T 5..40 with the schedules real trajectories have: powers of two, LAMMPS logarithmic
+                                 blocks (first gaps equal, later ones not), logfreq(a,n,b), linear-then-log, even except
+                                 the last / the first / one middle gap, two rates, alternating gaps, and even controls
+
 Preconditions imposed by construction:
-  * condition has shape (T, N), (T, N, d) or (T, N, d, d) with T = number of snapshots and N = nparticle, dtype
-    float64 or complex128 (docs: "type should be float"; bool must be converted by the caller)
-  * timesteps strictly increasing integers; "unevenly spaced" = at least two different successive differences (T >= 3)
+  * condition is an ndarray of shape (T, N), (T, N, d) or (T, N, d, d) with T = number of snapshots and N = nparticle;
+    dtype float64 / complex128 everywhere, float32 / complex64 only in repeat_calls (docs: "npt.NDArray ... type should
+    be float"; the code comments add "or complex-number"; bool / int must be converted by the caller and lists have no
+    .shape, so neither is generated)
+  * timesteps strictly increasing integers below 2^53; "unevenly spaced" = at least two different successive
+    differences (T >= 3)
   * the lag-zero value C(0) is bounded away from zero: |C(0)| >= 0.05 * (sum of absolute values of its terms).
     For scalars and vectors C(0) = mean sum |A|^2 and one entry of frame 0 has modulus >= 0.5; general tensors whose
     tr(A.conj(A)) nearly cancels are replaced by their symmetric part (time_corr.py L101 divides by results[0]).
-Tolerance (DESIGN 1.4): float64 recomputation of sums of <= 54 products: |dC_k| <= ~2e-14 * S_k with S_k the mean
-sum of absolute values; result = C_k / C_0, hence atol_k = 1e-13 (S_k + |C_k/C_0| S_0) / |C_0| plus rtol 1e-10.
+    A NEGATIVE lag-zero value is allowed (near-antisymmetric tensors): the statement divides by it whatever its sign.
+  * outputfile is a str ("" = nothing written); None is not generated (annotation says str)
+Tolerances (DESIGN 1.4):
+  * float64 recomputation of sums of <= 54 products averaged over <= 40 origins: |dC_k| <= ~2e-14 * S_k with S_k the
+    mean sum of absolute values; result = C_k / C_0, hence atol_k = 1e-13 (S_k + |C_k/C_0| S_0) / |C_0| plus rtol 1e-10.
+  * float32 / complex64 input: the values are exactly representable in float64, so the reference value is that of the
+    definition applied to the very numbers passed; the library may legitimately do the arithmetic in single precision
+    (unit round-off u = 2^-24): n products + n-1 additions + averaging over T origins give <= (n + T + 6) u S_k;
+    factor 2 (n + T + 6) 2^-24 instead of 1e-13 (n = number of products per frame pair <= 54).
+  * time axis: one subtraction of integers and one multiplication: rtol 1e-12, plus 4 eps max|ts| dt so that the
+    algebraically equal form ts*dt - ts0*dt stays quiet.
+  * CSV: both columns agree with the returned table to half a unit of the 8th decimal (the file is written at %.8f).
+  * "same arguments twice": bit-identical, but only when the very same objects are passed again (a copy at another
+    address may legitimately take a different SIMD path).
 """
 from __future__ import annotations
 
@@ -34,12 +68,20 @@ from PyMatterSim.dynamic.time_corr import time_correlation
 RULE = ("per-particle series of shape (T,N), (T,N,d), (T,N,d,d) (d 1..4 / 1..3), float64 or complex128, T 1..8, N 1..6, "
         "evenly spaced timesteps t0 + k*delta (T = 1, 2 count as even) or unevenly spaced ones (log, palindromic, "
         "one outlier, random), dt given or default; non-trivial = T >= 3 and the all-origins and the first-origin "
-        "definitions differ by more than 1e-6 at some lag (the case tells the two apart)")
+        "definitions differ by more than 1e-6 at some lag (the case tells the two apart). repeat_calls: histories of "
+        "3..7 calls sharing array / Snapshots objects, all memory layouts, float32/complex64; non-trivial = two "
+        "successive calls whose expected tables differ. edge_sizes: T 1..5, N 1..3, extreme t0 / dt, degenerate "
+        "contents; non-trivial = at least two edge classes at once. long_schedules: T 5..40, realistic log / "
+        "nearly-even schedules; non-trivial as for even/uneven_spacing")
 ASSUMPTIONS = [
-    "condition dtype float64 or complex128, shape (T, N[, d[, d]]) matching the snapshots",
-    "timesteps strictly increasing integers",
-    "lag-zero value bounded away from 0 by construction (|C(0)| >= 0.05 x absolute term sum)",
+    "condition is an ndarray of dtype float64 or complex128 (float32 / complex64 in repeat_calls only, compared at "
+    "single-precision tolerance), shape (T, N[, d[, d]]) matching the snapshots; lists / ints / bools are not generated",
+    "timesteps strictly increasing integers; evenly spaced = all successive differences equal",
+    "lag-zero value bounded away from 0 by construction (|C(0)| >= 0.05 x absolute term sum); its sign is free",
     "tensor product = trace of the matrix product A(later) . conj(A(earlier)) (DESIGN C14)",
+    "a call must not modify the caller's condition array: the property quantifies over histories, and a call that "
+    "rewrites its input changes what the next call on the same array is given (checked bit-for-bit in repeat_calls)",
+    "outputfile is a str; '' or omitted = no file is created in the working directory; an existing file is replaced",
 ]
 
 HALF8 = 0.505e-8
@@ -184,44 +226,276 @@ def phase_case(draw):
             "dt": draw(nice_float(0.001, 2.0))}
 
 
+# ----------------------------------------------------------------------------- generators of the extension
+
+_grid = st.integers(-80, 80).map(lambda k: k / 8.0)  # exactly representable in float32
+
+
+def _shape_for(rank, T, N, d):
+    return {"scalar": (T, N), "vector": (T, N, d), "tensor": (T, N, d, d)}[rank]
+
+
+@st.composite
+def content_st(draw, rank, cplx, shape, grid=False, tkind="general"):
+    """One series with a lag-zero value bounded away from zero under BOTH origin rules."""
+    el = _grid if grid else _el
+    A = draw(hnp.arrays(np.float64, shape, elements=el))
+    if cplx:
+        A = A + 1j * draw(hnp.arrays(np.float64, shape, elements=el))
+    if rank == "tensor" and tkind == "symmetric":
+        A = (A + np.swapaxes(A, 2, 3)) / 2.0
+    idx = (0, 0) + (0,) * (len(shape) - 2)
+    if abs(A[idx]) < 0.5:
+        A[idx] = draw(st.sampled_from([0.5, -1.0, 2.0, -3.5])) * ((1 + 1j) if cplx else 1.0)
+    if rank == "tensor" and not tcorr.well_conditioned(A):
+        A = (A + np.swapaxes(A, 2, 3)) / 2.0  # symmetric: tr(A conj A) = sum |A_jk|^2
+        if not np.any(A[0]):
+            A[0, 0] = np.eye(shape[2])
+    return A
+
+
+def _cumulate(t0, diffs):
+    ts = [int(t0)]
+    for x in diffs:
+        ts.append(ts[-1] + max(1, int(x)))
+    return ts
+
+
+_how = st.sampled_from(["buffer"] * 5 + ["fresh"] * 2 + ["strided", "reversed", "fortran", "swapped", "readonly"])
+
+
+@st.composite
+def repeat_case(draw):
+    rank = draw(st.sampled_from(["scalar", "vector", "tensor"]))
+    cplx = draw(st.booleans())
+    T = draw(st.integers(1, 8))
+    N = draw(st.integers(1, 5))
+    d = draw(st.integers(1, 3))
+    shape = _shape_for(rank, T, N, d)
+    grid = draw(st.booleans())  # all values multiples of 1/8: single-precision copies are exact
+    contents = [draw(content_st(rank, cplx, shape, grid)) for _ in range(draw(st.integers(2, 3)))]
+    # schedules of one length: even, the same with one gap changed, an unrelated uneven one, another even one
+    t0 = draw(st.sampled_from([0, 0, 1, 1000, 10 ** 6, 10 ** 9]))
+    delta = draw(st.integers(1, 2000))
+    n = T - 1
+    scheds = [_cumulate(t0, [delta] * n)]
+    if T >= 3:
+        diffs = [delta] * n
+        diffs[draw(st.sampled_from([n - 1, n - 1, 0, draw(st.integers(0, n - 1))]))] += draw(st.sampled_from([1, 1, delta, 1000]))
+        scheds.append(_cumulate(t0, diffs))
+        scheds.append(draw(timesteps_st(T, "uneven"))[0])
+    scheds.append(_cumulate(draw(st.sampled_from([0, t0, 77])), [draw(st.integers(1, 2000))] * n))
+    dts = [None, draw(nice_float(0.0005, 10.0))]
+    steps = []
+    for _ in range(draw(st.integers(3, 7))):
+        steps.append({
+            "content": draw(st.integers(0, len(contents) - 1)),
+            "sched": draw(st.integers(0, len(scheds) - 1)),
+            "how": draw(_how),
+            "single": bool(grid and draw(st.integers(0, 3)) == 0),
+            "axis": draw(st.integers(0, len(shape) - 1)),
+            "snaps": draw(st.sampled_from(["same", "same", "fresh"])),
+            "dt": draw(st.sampled_from([0, 0, 1])),
+            "out": draw(st.sampled_from([None, None, None, "", "tc_rep.csv"])),
+            "twice": draw(st.integers(0, 3)) == 0,
+        })
+    return {"rank": rank, "cplx": cplx, "shape": shape, "grid": grid, "contents": contents, "scheds": scheds,
+            "dts": dts, "steps": steps}
+
+
+_T0_EDGE = [0, 0, 1, 1000, 2 ** 31 - 1, 10 ** 9, 5 * 10 ** 9, 10 ** 12]
+_DT_EDGE = [None, 1e-15, 1e-9, 1e-5, 0.002, 1.0, 100.0, 1e6]
+
+
+@st.composite
+def edge_case(draw):
+    rank = draw(st.sampled_from(["scalar", "vector", "tensor"]))
+    T = draw(st.sampled_from([1, 1, 2, 2, 3, 3, 4, 5]))
+    N = draw(st.sampled_from([1, 1, 1, 2, 3]))
+    d = draw(st.sampled_from([1, 1, 2, 3] if rank == "vector" else [1, 1, 2]))
+    shape = _shape_for(rank, T, N, d)
+    kind = draw(st.sampled_from(["random", "constant-in-time", "purely-imaginary", "real-stored-as-complex",
+                                 "one-nonzero-entry", "scaled"]))
+    cplx = {"purely-imaginary": True, "real-stored-as-complex": True}.get(kind, draw(st.booleans()))
+    base_cplx = cplx and kind not in ("purely-imaginary", "real-stored-as-complex")
+    A = draw(content_st(rank, base_cplx, shape))
+    edge = []
+    if kind == "constant-in-time":
+        A = np.repeat(A[:1], T, axis=0)
+    elif kind == "purely-imaginary":
+        A = 1j * A
+    elif kind == "real-stored-as-complex":
+        A = A.astype(np.complex128)
+    elif kind == "one-nonzero-entry":
+        B = np.zeros_like(A)
+        first = (slice(None), 0) + (0,) * (len(shape) - 2)
+        B[first] = A[first]
+        A = B  # frame 0 keeps its entry of modulus >= 0.5; tensors: one diagonal entry, tr(A conj A) = |a|^2
+    elif kind == "scaled":
+        A = A * draw(st.sampled_from([1e-30, 1e-8, 1e8, 1e30]))
+    if kind != "random":
+        edge.append(kind)
+    t0 = draw(st.sampled_from(_T0_EDGE))
+    delta = draw(st.sampled_from([1, 1, 2, 1000, 10 ** 6]))
+    diffs = [delta] * (T - 1)
+    spacing = "even"
+    if T >= 3 and draw(st.booleans()):
+        diffs[draw(st.sampled_from([0, T - 2]))] += draw(st.sampled_from([1, delta]))
+        spacing = "one-gap-changed"
+    ts = _cumulate(t0, diffs)
+    dt = draw(st.sampled_from(_DT_EDGE))
+    edge += [f"T={T}"] if T <= 2 else []
+    edge += ["N=1"] if N == 1 else []
+    edge += ["d=1"] if rank != "scalar" and d == 1 else []
+    edge += ["t0>=2^31-1"] if t0 >= 2 ** 31 - 1 else []
+    edge += ["dt<=1e-9"] if dt is not None and dt <= 1e-9 else []
+    edge += ["dt>=100"] if dt is not None and dt >= 100 else []
+    out = draw(st.sampled_from([None, None, "", "tc_edge.csv", "sub dir/tc edge.dat", "abs:tc_abs.csv"]))
+    return {"A": A, "ts": ts, "dt": dt, "rank": rank, "cplx": cplx, "tkind": "general" if rank == "tensor" else "",
+            "pattern": spacing, "outfile": out, "edge": edge}
+
+
+_LONG_PATTERNS = ["pow2-times", "pow2-gaps", "log-blocks", "linear-then-log", "logfreq", "even-except-last",
+                  "even-except-first", "even-except-one-middle", "two-rates", "alternating-gaps", "even", "even"]
+
+
+@st.composite
+def long_schedule_st(draw, T):
+    pat = draw(st.sampled_from(_LONG_PATTERNS))
+    t0 = draw(st.sampled_from([0, 0, 1, 1000, 10 ** 6, 10 ** 9, 5 * 10 ** 9]))
+    n = T - 1
+    base = draw(st.sampled_from([1, 1, 2, 5, 10, 100, 1000]))
+    if pat == "pow2-times":  # t0 + base * (0, 1, 2, 4, 8, ...): the first two gaps are equal
+        rel = [0] + [base * 2 ** k for k in range(n)]
+    elif pat == "pow2-gaps":  # gaps base * (1, 2, 4, ...), e.g. timesteps 1, 2, 4, 8 when t0 = base = 1
+        rel = [base * (2 ** k - 1) for k in range(T)]
+    elif pat == "log-blocks":  # LAMMPS logarithmic blocks: each block restarts the sequence 0, 1, 2, 4, 8, ...
+        m = draw(st.integers(3, 8))
+        offs = [0] + [base * 2 ** k for k in range(m - 1)]
+        period = offs[-1] * draw(st.sampled_from([2, 2, 3])) if draw(st.booleans()) else offs[-1] + base
+        rel = [(k // m) * period + offs[k % m] for k in range(T)]
+    elif pat == "linear-then-log":  # q equal gaps, then doubling gaps
+        q = draw(st.integers(2, min(8, n)))
+        gaps = [base] * q + [base * 2 ** (k + 1) for k in range(n - q)]
+        rel = [0] + list(np.cumsum(gaps, dtype=object))
+    elif pat == "logfreq":  # LAMMPS logfreq(a, nper, b): a*(1..nper) * b^k
+        nper, b = draw(st.sampled_from([(3, 10), (9, 10), (2, 4), (4, 8), (1, 2), (5, 10)]))
+        rel = [base * (1 + k % nper) * b ** (k // nper) for k in range(T)]
+        rel = [r - rel[0] for r in rel]
+    else:
+        delta = draw(st.integers(1, 5000))
+        gaps = [delta] * n
+        other = delta + draw(st.sampled_from([1, 1, -1, delta, 1000, 7])) if delta > 1 else delta + draw(st.sampled_from([1, 2, 1000]))
+        if pat == "even-except-last":
+            gaps[-1] = other
+        elif pat == "even-except-first":
+            gaps[0] = other
+        elif pat == "even-except-one-middle":
+            gaps[draw(st.integers(1, max(1, n - 2)))] = other
+        elif pat == "two-rates":
+            j = draw(st.integers(1, n - 1))
+            gaps = [delta] * j + [other] * (n - j)
+        elif pat == "alternating-gaps":
+            gaps = [delta if k % 2 == 0 else other for k in range(n)]
+        rel = [0] + list(np.cumsum(gaps, dtype=object))
+    return [int(t0 + r) for r in rel], pat
+
+
+@st.composite
+def long_case(draw):
+    rank = draw(st.sampled_from(["scalar", "vector", "tensor"]))
+    cplx = draw(st.booleans())
+    T = draw(st.one_of(st.integers(5, 12), st.integers(13, 40)))
+    N = draw(st.integers(1, 4))
+    d = draw(st.integers(1, 3))
+    shape = _shape_for(rank, T, N, d)
+    tkind = draw(st.sampled_from(["general", "general", "symmetric"])) if rank == "tensor" else ""
+    A = draw(content_st(rank, cplx, shape, tkind=tkind or "general"))
+    ts, pat = draw(long_schedule_st(T))
+    return {"A": A, "ts": ts, "dt": draw(st.one_of(st.none(), nice_float(0.0005, 10.0))), "rank": rank, "cplx": cplx,
+            "tkind": tkind, "pattern": pat, "outfile": draw(st.integers(0, 3)) == 0, "long": True}
+
+
 # ----------------------------------------------------------------------------- checks
 
 
-def _call(case, A, ts):
-    snaps = _snapshots(ts, A.shape[1])
+EPS = float(np.finfo(float).eps)
+
+
+def _listing():
+    """Relative paths of every file below the scratch working directory."""
+    out = set()
+    for root, _dirs, files in os.walk("."):
+        for f in files:
+            out.add(os.path.normpath(os.path.join(root, f)))
+    return out
+
+
+def _check_csv(path, t, c):
+    T = len(t)
+    require(os.path.isfile(path), lambda: f"outputfile {path!r} not written")
+    with open(path) as fh:
+        lines = [ln.strip() for ln in fh if ln.strip()]
+    require(lines and lines[0] == "t,time_corr", lambda: f"csv header {lines[:1]!r}")
+    try:
+        data = np.array([[float(x) for x in ln.split(",")] for ln in lines[1:]], dtype=float).reshape(-1, 2)
+    except ValueError as e:
+        raise Violation(f"csv unparsable: {e}")
+    require(data.shape == (T, 2), f"csv has shape {data.shape}, expected {(T, 2)} (one row per frame, written anew "
+                                  f"by every call)")
+    bad = np.abs(data[:, 0] - t) > HALF8 + 4e-16 * np.abs(t)
+    require(not bad.any(), lambda: f"csv t column differs from returned: {data[:, 0].tolist()} vs {t.tolist()}")
+    close("csv time_corr vs returned", data[:, 1], c, rtol=0.0, atol=HALF8)
+
+
+def _invoke(snaps, cond, ts, dt=None, outputfile=None):
+    """One call of the code under test + everything that holds for every call: table layout, time axis, finite real
+    values, lag zero exactly 1, files.  outputfile None = argument omitted, "" = passed explicitly as empty.
+    Returns (t, c)."""
     kw = {}
-    if case.get("dt") is not None:
-        kw["dt"] = case["dt"]
-    if case.get("outfile"):
-        kw["outputfile"] = "tc.csv"
+    if dt is not None:
+        kw["dt"] = dt
+    if outputfile is not None:
+        kw["outputfile"] = outputfile
+    before = _listing()
     with warnings.catch_warnings():
         # the tensor branches add a complex trace to a float accumulator (= take the real part) and warn about it
         warnings.simplefilter("ignore", category=np.exceptions.ComplexWarning)
-        res = time_correlation(snaps, A.copy(), **kw)
+        res = time_correlation(snaps, cond, **kw)
     columns("time_correlation", res, ["t", "time_corr"])
     T = len(ts)
     t = arr("column t", col("time_correlation", res, "t"), shape=(T,)).astype(float)
     c = arr("column time_corr", col("time_correlation", res, "time_corr"), shape=(T,))
     require(c.dtype.kind == "f", f"time_corr column is not real: dtype {c.dtype}")
-    dt = 0.002 if case.get("dt") is None else case["dt"]
-    close("time axis (timestep - first timestep) * dt", t, tcorr.time_axis(ts, dt), rtol=1e-12, atol=0.0)
+    dtv = 0.002 if dt is None else dt
+    tmax = float(max(abs(int(ts[0])), abs(int(ts[-1]))))
+    close("time axis (timestep - first timestep) * dt", t, tcorr.time_axis(ts, dtv), rtol=1e-12,
+          atol=4 * EPS * tmax * abs(dtv))
     require(np.all(np.isfinite(c)), lambda: f"non-finite correlation values {c.tolist()}")
     require(c[0] == 1.0, lambda: f"lag-zero value is {c[0]!r}, not exactly 1")
-    if case.get("outfile"):
-        path = os.path.join(os.getcwd(), "tc.csv")
-        require(os.path.exists(path), "outputfile not written")
-        with open(path) as fh:
-            lines = [ln.strip() for ln in fh if ln.strip()]
-        require(lines and lines[0] == "t,time_corr", lambda: f"csv header {lines[:1]!r}")
-        try:
-            data = np.array([[float(x) for x in ln.split(",")] for ln in lines[1:]], dtype=float).reshape(-1, 2)
-        except ValueError as e:
-            raise Violation(f"csv unparsable: {e}")
-        require(data.shape == (T, 2), f"csv has shape {data.shape}, expected {(T, 2)}")
-        bad = np.abs(data[:, 0] - t) > HALF8 + 4e-16 * np.abs(t)
-        require(not bad.any(), lambda: f"csv t column differs from returned: {data[:, 0].tolist()} vs {t.tolist()}")
-        close("csv time_corr vs returned", data[:, 1], c, rtol=0.0, atol=HALF8)
+    created = _listing() - before
+    if outputfile:
+        rel = os.path.normpath(os.path.relpath(outputfile, os.getcwd()) if os.path.isabs(outputfile) else outputfile)
+        require(created <= {rel}, lambda: f"files other than outputfile={outputfile!r} were created: {sorted(created)}")
+        _check_csv(outputfile, t, c)
+    else:
+        require(not created, lambda: f"no outputfile requested ({outputfile!r}) but files were created: "
+                                     f"{sorted(created)}")
     return t, c
+
+
+def _call(case, A, ts):
+    snaps = _snapshots(ts, A.shape[1])
+    out = case.get("outfile")
+    if out is True:
+        out = "tc.csv"
+    elif not isinstance(out, str):
+        out = None
+    elif out.startswith("abs:"):  # absolute path below the scratch working directory
+        out = os.path.join(os.getcwd(), out[4:])
+    if out and os.path.dirname(out):
+        os.makedirs(os.path.dirname(out), exist_ok=True)
+    return _invoke(snaps, A.copy(), ts, dt=case.get("dt"), outputfile=out)
 
 
 def _compare(name, got, want, atol, rtol=1e-10):
@@ -258,10 +532,29 @@ def check_series(case):
         tags.append("tensor-" + case["tkind"])
     if case["outfile"]:
         tags.append("csv")
+        if isinstance(case["outfile"], str):
+            tags.append("csv-abs-path" if case["outfile"].startswith("abs:") else
+                        "csv-in-subdir" if os.path.dirname(case["outfile"]) else "csv-plain-name")
+    else:
+        tags.append("no-file:outputfile-empty-string" if case["outfile"] == "" else "no-file:outputfile-omitted")
+    if case.get("long"):
+        tags.append("T5-12" if T <= 12 else "T13-24" if T <= 24 else "T25-40")
     if discr:
         tags.append("discriminates-origin-rule")
     if np.any(want > 1.0 + 1e-9):
         tags.append("some-lag-above-1")
+    if ts[0] >= 2 ** 31 - 1:
+        tags.append("t0>=2^31-1")
+    elif ts[-1] >= 2 ** 31:
+        tags.append("crosses-2^31")
+    edge = list(case.get("edge", ()))
+    if "constant-in-time" in edge:
+        # independent of the reference: every product equals the lag-zero product, under both origin rules
+        _compare("series constant in time: C(k) = 1 at every lag", c, np.ones(T), atol)
+    tags += ["edge:" + e for e in edge]
+    if "edge" in case:
+        tags.append(f"edge-classes-{min(len(edge), 5)}")
+        return {"nontrivial": len(edge) >= 2, "tags": tags}
     return {"nontrivial": discr, "tags": tags}
 
 
@@ -279,6 +572,139 @@ def check_phase(case):
     return {"nontrivial": bool(T >= 3 and np.max(np.abs(want - 1.0)) > 1e-3), "tags": tags}
 
 
+def _single(dtype):
+    return np.complex64 if np.dtype(dtype).kind == "c" else np.float32
+
+
+def _layout(how, C, axis):
+    """The logical contents C in the memory layout `how`.  Returns (argument, base) where base owns the memory
+    (checked for stray writes as well)."""
+    if how == "fresh":
+        a = C.copy()
+        return a, a
+    if how == "strided":  # every second element along one axis of a larger array; the gaps hold NaN
+        shp = list(C.shape)
+        shp[axis] *= 2
+        base = np.full(shp, np.nan, dtype=C.dtype)
+        idx = [slice(None)] * C.ndim
+        idx[axis] = slice(1, None, 2)
+        a = base[tuple(idx)]
+        a[...] = C
+        return a, base
+    if how == "reversed":  # negative stride along time
+        base = C[::-1].copy()
+        return base[::-1], base
+    if how == "fortran":
+        a = np.asfortranarray(C)
+        return a, a
+    if how == "swapped":  # last two axes (or time and particle axes for scalars) stored transposed
+        i, j = (C.ndim - 2, C.ndim - 1)
+        base = np.ascontiguousarray(np.swapaxes(C, i, j))
+        return np.swapaxes(base, i, j), base
+    if how == "readonly":  # e.g. np.load(..., mmap_mode="r")
+        a = C.copy()
+        a.flags.writeable = False
+        return a, a
+    raise RuntimeError(how)
+
+
+def check_repeat(case):
+    contents, scheds, shape = case["contents"], case["scheds"], tuple(case["shape"])
+    T, N = shape[0], shape[1]
+    nterms = int(np.prod(shape[1:]))
+    master = contents[0].dtype
+    expected = {}
+
+    def want_for(ci, si):
+        if (ci, si) not in expected:
+            want, C, S, even = tcorr.normalised(contents[ci], scheds[si])
+            if not (abs(C[0]) >= 0.05 * S[0] and S[0] > 0):
+                raise RuntimeError("harness: ill-conditioned normaliser generated")
+            expected[(ci, si)] = (want, (S + np.abs(want) * S[0]) / abs(C[0]), even)
+        return expected[(ci, si)]
+
+    buffers = {}  # dtype -> persistent array object, refilled in place
+    shared = None  # persistent Snapshots object, frames replaced in place
+    shared_ts = None
+    cell, pos, types = _cell(), np.zeros((N, 2)), np.ones(N, dtype=int)
+    tags, prev, discr = [], None, False
+    seen = {"buffer-content": {}, "snaps-even": None}
+    for k, stp in enumerate(case["steps"]):
+        ci, si, how = stp["content"], stp["sched"], stp["how"]
+        ts = scheds[si]
+        dtype = _single(master) if stp["single"] else master
+        C = contents[ci].astype(dtype)  # exact when single: the case is on the 1/8 grid
+        want, scale, even = want_for(ci, si)
+        # ---- condition argument
+        if how == "buffer":
+            if dtype not in buffers:
+                buffers[dtype] = np.empty(shape, dtype=dtype)
+            elif seen["buffer-content"].get(dtype) not in (None, ci):
+                tags.append("same-array-new-contents")
+            buffers[dtype][...] = C
+            seen["buffer-content"][dtype] = ci
+            cond = base = buffers[dtype]
+        else:
+            cond, base = _layout(how, C, stp["axis"])
+        # ---- snapshots argument
+        if stp["snaps"] == "same":
+            if shared is None:
+                shared = _snapshots(ts, N)
+            else:
+                changed = False
+                for f in range(T):
+                    if shared_ts[f] != ts[f]:
+                        shared.snapshots[f] = gen.snapshot_from(cell, pos, types, ts[f])  # list entry replaced in place
+                        changed = True
+                if changed:
+                    tags.append("same-snapshots-new-timesteps")
+                    if seen["snaps-even"] is not None and seen["snaps-even"] != even:
+                        tags.append("same-snapshots-even<->uneven")
+            shared_ts = list(ts)
+            seen["snaps-even"] = even
+            snaps = shared
+        else:
+            snaps = _snapshots(ts, N)
+        dt = case["dts"][stp["dt"]]
+        out = stp["out"]
+        before_arg = cond.tobytes()
+        before_base = base.tobytes()
+        t, c = _invoke(snaps, cond, ts, dt=dt, outputfile=out)
+        label = (f"call {k + 1}/{len(case['steps'])} ({case['rank']}, {np.dtype(dtype).name}, layout {how}, "
+                 f"{'even: all origins' if even else 'uneven: first frame only'}, content #{ci}, schedule #{si})")
+        require(cond.tobytes() == before_arg and base.tobytes() == before_base,
+                lambda: f"{label}: the caller's condition array was modified by the call")
+        require([int(sn.timestep) for sn in snaps.snapshots] == [int(x) for x in ts] and snaps.nsnapshots == T,
+                lambda: f"{label}: the caller's snapshots were modified by the call")
+        factor = 2.0 * (nterms + T + 6) * 2.0 ** -24 if stp["single"] else 1e-13
+        _compare(f"time_corr, {label}", c, want, factor * scale)
+        if stp["twice"]:
+            t2, c2 = _invoke(snaps, cond, ts, dt=dt, outputfile=out)
+            require(t2.tobytes() == t.tobytes() and c2.tobytes() == c.tobytes(),
+                    lambda: f"{label}: the same objects passed twice in a row gave different tables: "
+                            f"{c.tolist()} then {c2.tolist()}")
+            require(cond.tobytes() == before_arg and base.tobytes() == before_base,
+                    lambda: f"{label}: the caller's condition array was modified by the repeated call")
+            tags.append("same-arguments-twice")
+        if prev is not None:
+            pw, pts, pdt = prev
+            if np.max(np.abs(pw - want)) > 1e-6 or pts != ts or pdt != dt:
+                discr = True
+            if np.max(np.abs(pw - want)) > 1e-6 and pts == ts:
+                tags.append("same-schedule-other-contents")
+        prev = (want, ts, dt)
+        tags += ["layout-" + how, np.dtype(dtype).name, "even" if even else "uneven",
+                 "snapshots-" + stp["snaps"], "csv" if out else "no-file"]
+    tags = sorted(set(tags)) + [case["rank"], f"T{T}", f"calls-{len(case['steps'])}"]
+    return {"nontrivial": discr, "tags": tags, "extra": {"calls": len(case["steps"])}}
+
+
+def describe_repeat(case):
+    return {"rank": case["rank"], "complex": case["cplx"], "shape": list(case["shape"]), "scheds": case["scheds"],
+            "steps": [(s["content"], s["sched"], s["how"], "single" if s["single"] else "double", s["snaps"],
+                       "x2" if s["twice"] else "") for s in case["steps"]]}
+
+
 def describe(case):
     return {"rank": case["rank"], "complex": case["cplx"], "shape": list(case["A"].shape), "ts": case["ts"],
             "dt": case["dt"], "tensor": case["tkind"], "A[:2,0]": np.round(case["A"][:2, 0], 3).tolist()}
@@ -289,6 +715,13 @@ def describe_phase(case):
             "amp0": np.round(case["amp"][0], 3).tolist()}
 
 
+def describe_edge(case):
+    d = describe(case)
+    d["edge"] = case["edge"]
+    d["outfile"] = case["outfile"]
+    return d
+
+
 FACETS = [
     Facet("even_spacing", series_case("even"), check_series, quick=1500, thorough=60000, describe=describe,
           shards_quick=3, rule="t0 + k*delta, T 1..8: mean over all T-k origins; non-trivial as in RULE"),
@@ -297,17 +730,47 @@ FACETS = [
     Facet("analytic_phase", phase_case(), check_phase, quick=600, thorough=30000, describe=describe_phase,
           rule="a_i exp(i phi ts_k), complex amplitudes, scalar/vector/symmetric tensor, even and uneven spacing: "
                "closed form cos(phi (ts_k - ts_0)); non-trivial = T >= 3 and the cosine leaves 1 by > 1e-3"),
+    Facet("repeat_calls", repeat_case(), check_repeat, quick=1200, thorough=40000, describe=describe_repeat,
+          shards_quick=3,
+          rule="3..7 calls per case on 2..3 contents x 2..4 schedules of one shape: same array refilled in place, same "
+               "Snapshots object with frames replaced in place (even <-> uneven), fresh objects alternating, strided / "
+               "reversed / Fortran / axis-swapped / read-only layouts, float32 / complex64, same objects twice in a row "
+               "(bit-identical); each call = reference for the contents at call time, caller's array bit-identical "
+               "afterwards; non-trivial = two successive calls whose expected tables differ"),
+    Facet("edge_sizes", edge_case(), check_series, quick=900, thorough=30000, describe=describe_edge,
+          rule="T 1..5, N 1..3, d 1..3; t0 in {0, 1, 1000, 2^31-1, 1e9, 5e9, 1e12}; dt in {default, 1e-15 .. 1e6}; "
+               "constant in time (C = 1 at every lag), purely imaginary, real stored as complex, one non-zero entry, "
+               "scaled by 1e+-30 / 1e+-8; outputfile omitted / '' / plain / sub-directory / absolute; "
+               "non-trivial = at least two edge classes at once"),
+    Facet("long_schedules", long_case(), check_series, quick=500, thorough=20000, describe=describe,
+          shards_quick=3,
+          rule="T 5..40, N 1..4: pow2-times, pow2-gaps, log-blocks, linear-then-log, logfreq, even-except-last / "
+               "-first / -one-middle, two-rates, alternating-gaps, even; first timestep up to 5e9; evenness decided by "
+               "the reference from the statement (all successive differences equal); non-trivial as in RULE"),
 ]
 
 MANIFEST = {
     "text": ("dynamic.time_corr.time_correlation is compared with an independent einsum reference on generated series of "
              "shape (T,N), (T,N,d), (T,N,d,d), float64 and complex128, T 1..8: evenly spaced timesteps -> mean over all "
              "origins (even_spacing), unevenly spaced -> first frame only (uneven_spacing, incl. palindromic / one-outlier "
-             "/ two-value difference patterns); time axis (ts - ts0)*dt at rtol 1e-12, lag-zero value exactly 1.0, CSV at "
-             "%.8f; closed form cos(phi (ts - ts0)) for a_i exp(i phi ts) fixes the conjugation convention "
-             "independently of the reference (analytic_phase)."),
+             "/ two-value difference patterns); time axis (ts - ts0)*dt, lag-zero value exactly 1.0, CSV agreeing with the "
+             "returned table at %.8f and no file when outputfile is '' or omitted; closed form cos(phi (ts - ts0)) for "
+             "a_i exp(i phi ts) fixes the conjugation convention independently of the reference (analytic_phase). "
+             "Histories (repeat_calls): 3..7 calls per case that share the condition array object (refilled in place), "
+             "the Snapshots object (frames replaced in place, even <-> uneven), or alternate between inputs of one shape, "
+             "in strided / reversed / Fortran / axis-swapped / read-only layouts and float32 / complex64: every call "
+             "equals the reference for the contents at call time, identical objects twice give bit-identical tables, "
+             "the caller's array is bit-identical afterwards. Minimal sizes and extreme magnitudes (edge_sizes): T = 1, "
+             "2, N = 1, 1-component vectors, 1x1 tensors, first timestep up to 1e12, dt 1e-15 .. 1e6, series constant "
+             "in time (C = 1 at all lags), purely imaginary, scaled by 1e+-30. Realistic long schedules "
+             "(long_schedules, T up to 40): powers of two, LAMMPS logarithmic blocks, logfreq, linear-then-log, even "
+             "except one gap (last / first / middle), two rates."),
     "note": ("Trusted base: numpy einsum, pbt/ref/tcorr.py. Tensor product = trace of A(later).conj(A(earlier)). "
              "The lag-zero normaliser is kept bounded away from 0 by construction (general tensors with cancelling "
-             "tr(A conj A) are symmetrised). dtype float64/complex128 only."),
-    "technique": "property-based testing (Hypothesis): reference-model differential + closed-form oracle",
+             "tr(A conj A) are symmetrised); its sign is free. dtype float64/complex128, plus float32/complex64 in "
+             "repeat_calls at a single-precision tolerance (values exactly representable, the library may compute in "
+             "single precision). Lists, ints, bools and outputfile=None are outside the documented domain and not "
+             "generated. Evenly spaced = all successive integer timestep differences equal."),
+    "technique": ("property-based testing (Hypothesis): reference-model differential + closed-form oracle + "
+                  "call-history (state carried between calls) differential"),
 }
